@@ -363,7 +363,8 @@ where
             return Err(IVPStatus::Done);
         }
 
-        if self.time.real() + self.dt.real() >= self.end.real() {
+        let final_step = self.time.real() + self.dt.real() >= self.end.real();
+        if final_step {
             self.dt = self.end - self.time;
         }
 
@@ -390,7 +391,12 @@ where
         let error = self.scratch_pad.norm() / self.dt.real();
 
         if error <= self.tolerance.real() {
-            self.time += self.dt;
+            // time + (end - time) is not always end
+            if final_step {
+                self.time = self.end;
+            } else {
+                self.time += self.dt;
+            }
 
             for (ind, &avg_coeff) in self.avg_coefficients.iter().enumerate() {
                 self.state += self.half_steps.column(ind) * avg_coeff;
